@@ -32,8 +32,8 @@ ASSUMPTIONS = [
     "links are checked on their formula text; no spreadsheet engine evaluates them",
 ]
 SETTINGS: Dict[str, Dict[str, Any]] = {
-    "quick": {"cases": 160, "budget_s": 60, "minimums": {"links_checked": 8000, "hidden_plain_cells": 60, "summary_links": 400, "nontrivial": 30}, "required_tags": {"tag_family": ["colliding-row-ids", "own-year-order-inversion", "sheet-rows-equal-to-tax-years", "dust-taken-from-a-huge-lot", "general"]}},
-    "thorough": {"cases": 3600, "budget_s": 420, "minimums": {"links_checked": 80000, "hidden_plain_cells": 600, "summary_links": 5000, "nontrivial": 300}, "required_tags": {"tag_family": ["colliding-row-ids", "own-year-order-inversion", "sheet-rows-equal-to-tax-years", "dust-taken-from-a-huge-lot", "general"]}},
+    "quick": {"cases": 160, "budget_s": 60, "minimums": {"links_checked": 8000, "hidden_plain_cells": 60, "summary_links": 400, "nontrivial": 30, "reports_written_second_in_one_interpreter": 15}, "required_tags": {"tag_family": ["colliding-row-ids", "own-year-order-inversion", "sheet-rows-equal-to-tax-years", "dust-taken-from-a-huge-lot", "general"]}},
+    "thorough": {"cases": 3600, "budget_s": 420, "minimums": {"links_checked": 80000, "hidden_plain_cells": 600, "summary_links": 5000, "nontrivial": 300, "reports_written_second_in_one_interpreter": 300}, "required_tags": {"tag_family": ["colliding-row-ids", "own-year-order-inversion", "sheet-rows-equal-to-tax-years", "dust-taken-from-a-huge-lot", "general"]}},
 }
 
 
@@ -131,6 +131,10 @@ def dust_from_a_huge_lot_case(rng: random.Random) -> Dict[str, Any]:
 
 
 def _one(ctx: Any, expected: Expected, case: Dict[str, Any], name: str, family: str) -> None:
+    if "warm" not in case and family != "replay":
+        import zlib
+
+        case = dict(case, warm=zlib.crc32(name.encode()) % 4 == 0)
     outcome = run_case(ctx, expected, case, name, "links")
     ctx.count("valid_cases")
     if outcome is None:
